@@ -250,3 +250,60 @@ pub fn install_logger() {
 	let _ = log::set_logger(&LOGGER);
 	log::set_max_level(log::LevelFilter::Trace);
 }
+
+/// A stream of more than 2 GiB that is never held in memory: `head`, then `n` copies of a 65,536-byte
+/// block (one event: a code byte and 65,535 payload bytes), then `tail`. Answers `Read` and `Seek`.
+pub struct SparseReader {
+	pub head: Vec<u8>,
+	pub block: Vec<u8>,
+	pub n: u64,
+	pub tail: Vec<u8>,
+	pub pos: u64,
+	pub bytes_read: u64,
+	pub seeks: u64,
+}
+
+impl SparseReader {
+	pub fn len(&self) -> u64 {
+		self.head.len() as u64 + self.n * self.block.len() as u64 + self.tail.len() as u64
+	}
+}
+
+impl Read for SparseReader {
+	fn read(&mut self, out: &mut [u8]) -> io::Result<usize> {
+		let (h, b) = (self.head.len() as u64, self.block.len() as u64);
+		let mid_end = h + self.n * b;
+		let mut done = 0usize;
+		while done < out.len() && self.pos < self.len() {
+			let (src, off): (&[u8], usize) = if self.pos < h {
+				(&self.head, self.pos as usize)
+			} else if self.pos < mid_end {
+				(&self.block, ((self.pos - h) % b) as usize)
+			} else {
+				(&self.tail, (self.pos - mid_end) as usize)
+			};
+			let k = (src.len() - off).min(out.len() - done);
+			out[done..done + k].copy_from_slice(&src[off..off + k]);
+			done += k;
+			self.pos += k as u64;
+		}
+		self.bytes_read += done as u64;
+		Ok(done)
+	}
+}
+
+impl Seek for SparseReader {
+	fn seek(&mut self, pos: SeekFrom) -> io::Result<u64> {
+		self.seeks += 1;
+		let new = match pos {
+			SeekFrom::Start(n) => n as i128,
+			SeekFrom::Current(d) => self.pos as i128 + d as i128,
+			SeekFrom::End(d) => self.len() as i128 + d as i128,
+		};
+		if new < 0 {
+			return Err(io::Error::new(io::ErrorKind::InvalidInput, "env: invalid seek to a negative position"));
+		}
+		self.pos = new as u64;
+		Ok(self.pos)
+	}
+}
